@@ -273,7 +273,19 @@ def replay(w):
         rk = np.array([z3.simplify(z3.ZeroExt(2, z3.Concat(*rkb[6 * wd:6 * wd + 6]))).as_long() for wd in range(8)], dtype=np.uint8)
         ref = D.DesRef()
         ct = np.array(D.concrete_eval(ref.des_pass([z3.BitVecVal(b, 8) for b in pt], D.key_schedule_bits([z3.BitVecVal(b, 8) for b in kv]))['out']), dtype=np.uint8)
-        got = des.get_master_key(rk, r, p, ct)
-        bad = got is None or [int(x) & 0xFE for x in got] != [b & 0xFE for b in kv]
+        def once(kv_, r_):
+            rkb_ = D.key_schedule_bits([z3.BitVecVal(b, 8) for b in kv_])
+            rk_ = np.array([z3.simplify(z3.ZeroExt(2, z3.Concat(*rkb_[r_][6 * wd:6 * wd + 6]))).as_long() for wd in range(8)], dtype=np.uint8)
+            ct_ = np.array(D.concrete_eval(ref.des_pass([z3.BitVecVal(b, 8) for b in pt], rkb_)['out']), dtype=np.uint8)
+            g = des.get_master_key(rk_, r_, p, ct_)
+            return g, (g is None or [int(x) & 0xFE for x in g] != [b & 0xFE for b in kv_])
+        got, bad = once(kv, r)
+        if not bad:
+            # the symbolic run makes many calls in one process: replay the call after two earlier calls with other keys / rounds as well
+            once([(b * 7 + 13) % 256 for b in kv], (r + 5) % 16)
+            once([(b * 3 + 101) % 256 for b in kv], (r + 9) % 16)
+            got, bad = once(kv, r)
+            if bad:
+                return dict(reproduced=True, detail=f'get_master_key(round key {r} of {kv}, plaintext {pt}) returned {None if got is None else [int(x) for x in got]} when called after two calls for other keys (the same call is right in a fresh process)')
         return dict(reproduced=bool(bad), detail=f'get_master_key(round key {r} of {kv}, plaintext {pt}) returned {None if got is None else [int(x) for x in got]}')
     return dict(reproduced=False, detail='unknown witness kind')
